@@ -142,3 +142,12 @@ add("C15", "exploration",
     "Completion is detected by byte count (not by close, which is property C16). X-Forwarded-For, which the passthrough reverse proxy "
     "appends to, is not generated.",
     "property-based testing (rapid) + native go fuzzing: generated write/read segmentations, round-trip equality of byte streams", "3/C15")
+add("C16", "exploration",
+    "Generated histories of 1-20 bridged connections (closer = client or server, byte counts in both directions, close mode clean / dirty "
+    "/ both-at-once, start offsets) run through the real bridge binaries; the far peer must observe end-of-stream within 5 s of the close, "
+    "for clean closes after reading exactly the bytes written before it, and the file-descriptor counts of both bridge processes "
+    "(/proc/<pid>/fd) must return to their baseline once every endpoint is closed. Orders and timings are sampled.",
+    "A close is 'clean' when the closer has read everything sent to it and the far side is quiescent (a TCP peer closing with unread input "
+    "emits RST and no relay can promise delivery then); only end-of-stream and the fd baseline are asserted for dirty/both closes. The 5 s "
+    "bound is three orders of magnitude above the observed latency; a miss is re-run once before it counts.",
+    "stateful property-based testing (rapid): generated open/write/close histories, end-of-stream and resource-baseline oracle", "3/C16")
